@@ -70,6 +70,36 @@ def check(repo: Repo, rep: Report) -> None:
     rep.ob("D3-default-ordering", dsc, f"default_sub_comparer returns `{' ; '.join(short(r) for r in rets) or '?'}`", len(rets) == 1 and _ordering(rets[0]),
            "the default comparer of min / max / min_by / max_by is not the plain difference of the two keys: a conversion (int(), round()) or "
            "another expression changes its sign for some keys (keys less than 1 apart compare equal), so the extremum differs from min(xs) / max(xs)")
+    # value halves of the aggregate skeletons ------------------------------------------------------------------------
+    rep.rule("V1-sign-of-comparison", "extrema_by decides on the SIGN of the comparer's result: `> 0` replaces the extremum, `>= 0` collects; nothing else", floor=2)
+    eb = repo.fn("reactivex/operators/_minby.py", "extrema_by.subscribe.on_next")
+    cres = {u(n_.targets[0]) for n_ in eb.direct_nodes() if isinstance(n_, ast.Assign) and isinstance(n_.value, ast.Call) and isinstance(n_.value.func, ast.Name)
+            and eb.owner(n_.value.func.id) is not None and not eb.owner(n_.value.func.id).is_module and "compar" in n_.value.func.id}
+    cmps = [n_ for n_ in eb.direct_nodes() if isinstance(n_, ast.Compare) and len(n_.ops) == 1 and any(isinstance(x, ast.Name) and x.id in cres for x in (n_.left, n_.comparators[0]))]
+    shapes = set()
+    for c_ in cmps:
+        other = c_.comparators[0] if isinstance(c_.left, ast.Name) and c_.left.id in cres else c_.left
+        flip = not (isinstance(c_.left, ast.Name) and c_.left.id in cres)
+        opn = type(c_.ops[0]).__name__
+        if flip:
+            opn = {"Lt": "Gt", "LtE": "GtE", "Gt": "Lt", "GtE": "LtE"}.get(opn, opn)
+        okc = isinstance(other, ast.Constant) and other.value == 0 and type(other.value) is int
+        shapes.add(opn if okc else f"{opn} {u(other)}")
+        rep.ob("V1-sign-of-comparison", eb, f"extrema_by: `{short(c_)}` compares the comparer's result with 0", okc,
+               "extrema_by compares the comparer's result with something other than 0: keys that differ by less than that threshold are treated as "
+               "ties (max([1.0, 1.5]) is 1.0), so the emitted extremum differs from min(xs) / max(xs)")
+    rep.ob("V1-sign-of-comparison", eb, f"extrema_by: replace on `> 0`, collect on `>= 0` (found {sorted(shapes)})", shapes == {"Gt", "GtE"},
+           "extrema_by does not replace the current extremum exactly when the comparer's result is positive and collect ties when it is zero")
+    rep.rule("V2-average-empty", "average: 'the input was empty' is decided by the element count, the result is sum / count", floor=2)
+    avm = repo.fn("reactivex/operators/_average.py", "average_.mapper")
+    raises = [x for x in sites(avm) if isinstance(x.node, ast.Raise)]
+    okr = bool(raises) and all(any(p_ and isinstance(e, ast.Compare) and len(e.ops) == 1 and isinstance(e.ops[0], ast.Eq) and
+                                   {u(e.left).split(".")[-1], u(e.comparators[0])} == {"count", "0"} for e, p_ in r_.ctx.guards) for r_ in raises)
+    rep.ob("V2-average-empty", avm, "average: raise 'empty' iff count == 0", okr,
+           "average decides emptiness on something other than the element count: a non-empty input whose values sum to 0 is reported as empty")
+    rets = [x.node.value for x in sites(avm) if isinstance(x.node, ast.Return)]
+    okd = len(rets) == 1 and isinstance(rets[0], ast.BinOp) and isinstance(rets[0].op, ast.Div) and u(rets[0].left).endswith(".sum") and ".count" in u(rets[0].right)
+    rep.ob("V2-average-empty", avm, "average: returns sum / count", okd, "average does not return the sum divided by the count")
     rep.rule("K5-error-kinds", "empty input without default => SequenceContainsNoElementsError (flag-decided); single: second element => error", floor=4)
     for key in OPS:
         got = TC.check_operator(repo, rep, "K1-signature", key,
